@@ -88,6 +88,15 @@ InN(neg) ==
   /\ Len(stack) >= 3 /\ Top(0).ty = "a" /\ Top(1).ty = "a" /\ Top(2).ty = "a"
   /\ LET t == In2(Top(2).v, Top(1).v, Top(0).v) IN
      Replace(3, B([op |-> IF neg THEN "notin" ELSE "in", l |-> Top(2).e, r |-> Top(1).e, r2 |-> Top(0).e], IF neg THEN Not(t) ELSE t))
+\* x op ANY (SELECT a UNION ALL SELECT b) = (x op a) OR (x op b);  x op ALL (..) = (x op a) AND (x op b)
+QuantN(op, all) ==
+  /\ Len(stack) >= 3 /\ Top(0).ty = "a" /\ Top(1).ty = "a" /\ Top(2).ty = "a"
+  /\ LET c1 == Cmp(op, Top(2).v, Top(1).v)  c2 == Cmp(op, Top(2).v, Top(0).v) IN
+     Replace(3, B([op |-> IF all THEN "all" ELSE "any", cmp |-> op, l |-> Top(2).e, r |-> Top(1).e, r2 |-> Top(0).e], IF all THEN And(c1, c2) ELSE Or(c1, c2)))
+\* c IS [NOT] TRUE / FALSE / UNKNOWN: never UNKNOWN itself
+IsTernN(w, neg) ==
+  /\ Len(stack) >= 1 /\ Top(0).ty = "b"
+  /\ Replace(1, B([op |-> "ister", w |-> w, neg |-> neg, l |-> Top(0).e], T3((Top(0).t = w) # neg)))
 \* CASE WHEN c THEN a ELSE b END
 CaseN ==
   /\ Len(stack) >= 3 /\ Top(0).ty = "a" /\ Top(1).ty = "a" /\ Top(2).ty = "b"
@@ -108,6 +117,8 @@ Next ==
      \/ UnNot
      \/ \E n \in BOOLEAN : IsNullN(n) \/ BetweenN(n) \/ InN(n)
      \/ CaseN
+     \/ \E op \in CmpOps : \E all \in BOOLEAN : QuantN(op, all)
+     \/ \E w \in {"T", "F", "U"} : \E neg \in BOOLEAN : IsTernN(w, neg)
      \/ Paren
 
 Spec == Init /\ [][Next]_vars
